@@ -10,12 +10,14 @@ Local Open Scope string_scope.
 (* Every data member of CodeHolder / Section / Arena / BaseEmitter / BaseAssembler / BaseBuilder / BaseCompiler / BaseRAPass
    (member lists and write sets re-extracted from the clang AST of the working tree on every run) is, on every reset route
    (holder reset, holder reinit, .text re-creation, new_section, arena reset, detach, detach-all, reinit of each of the six
-   emitters, per-function cleanup of the register allocator of both back ends), either overwritten by a routine of that
+   emitters, per-function cleanup of the register allocator of both back ends; hard and soft Arena reset separately; creation of
+   RelocEntry / Fixup / AddressTableEntry / LabelEntry / named-label data / every Builder and Compiler node class in recycled
+   arena memory), either overwritten by a routine of that
    route (reached from the route's roots through call edges of the extracted call graph) with a reviewed resetting idiom,
    or on the reviewed list of persistent members. A new member, or a deleted reset statement, falsifies it by name. *)
 Theorem C16_every_field_reset :
   forall r c f, In r routes -> In c (r_classes r) -> In f (fields_of classes c) ->
-    covered (route_writes funcs r) c f = true \/ is_persistent r c f = true.
+    covered r (route_writes funcs r) c f = true \/ is_persistent r c f = true.
 Proof. exact (check_all_sound classes funcs reset_fields_ok). Qed.
 Print Assumptions C16_every_field_reset.
 
@@ -24,16 +26,19 @@ Theorem C16_no_uncovered_member : uncovered classes funcs = [].
 Proof. exact (check_all_uncovered_nil classes funcs reset_fields_ok). Qed.
 Print Assumptions C16_no_uncovered_member.
 
-(* meaning of "covered": a resetting write of the whole member, or all the sub-writes of one reviewed idiom, performed by a
-   function that is a root of the route or reachable from one through extracted call edges *)
+(* meaning of "covered": in a function that is a root of the route or reachable from one through extracted call edges there is
+   (1) a resetting write of the whole member, applied to THE OBJECT BEING RESET (r_objs), unconditionally or under a reviewed
+       guard of the route (r_guards: per-emitter loop, own-logger test, hard-reset test, ...), or
+   (2) two such writes in the two branches of one condition (guards g and !g), or
+   (3) all sub-writes of one reviewed idiom, each applied to the object being reset *)
 Theorem C16_covered_means_written :
-  forall r c f, covered (route_writes funcs r) c f = true ->
-    (exists w n rt, In rt (r_roots r) /\ calls_star funcs (rt_fn rt) n /\ In w (writes_of funcs n) /\
-                    w_class w = c /\ w_field w = f /\ w_sub w = "" /\ In (w_how w) reset_hows) \/
-    (exists s, In s specials /\ sp_class s = c /\ sp_field s = f /\
-       forall sub, In sub (sp_subs s) ->
-         exists w n rt, In rt (r_roots r) /\ calls_star funcs (rt_fn rt) n /\ In w (writes_of funcs n) /\
-                        w_class w = c /\ w_field w = f /\ w_sub w = sub /\ w_how w = sp_how s).
+  forall r c f, covered r (route_writes funcs r) c f = true ->
+  (exists w, from_route funcs r w /\ plain_write c f w /\ applies_prop r w) \/
+  (exists w1 w2, from_route funcs r w1 /\ from_route funcs r w2 /\ plain_write c f w1 /\ plain_write c f w2 /\
+                 In (w_obj w1) (r_objs r) /\ In (w_obj w2) (r_objs r) /\ w_guard w2 = String.append "!" (w_guard w1)) \/
+  (exists s, In s specials /\ sp_class s = c /\ sp_field s = f /\
+     forall sub, In sub (sp_subs s) ->
+       exists w, from_route funcs r w /\ w_class w = c /\ w_field w = f /\ w_sub w = sub /\ w_how w = sp_how s /\ applies_prop r w).
 Proof. exact (covered_means_written funcs). Qed.
 Print Assumptions C16_covered_means_written.
 
